@@ -105,6 +105,81 @@ def crash_bucket(t):
     return "crash/exit%s" % rc, err[-3000:]
 
 
+def _candidates(case):
+    """Smaller variants of a JSON case: drop one element of some list / one key of the 'script'-like dicts."""
+    out = []
+
+    def walk(node, path):
+        if isinstance(node, list):
+            if len(node) > 1 and all(isinstance(x, list) for x in node) or (path and len(node) > 0 and any(isinstance(x, (list, dict)) for x in node)):
+                for i in range(len(node)):
+                    out.append((path, "del", i))
+            for i, x in enumerate(node):
+                walk(x, path + [i])
+        elif isinstance(node, dict):
+            for k, v in node.items():
+                if isinstance(v, dict) and v:
+                    for kk in v:
+                        out.append((path + [k], "delkey", kk))
+                walk(v, path + [k])
+    walk(case, [])
+    return out
+
+
+def _apply(case, cand):
+    import copy
+    c = copy.deepcopy(case)
+    path, what, i = cand
+    node = c
+    for p_ in path:
+        node = node[p_]
+    if what == "del":
+        del node[i]
+    else:
+        del node[i]
+    return c
+
+
+def shrink_crash(prop, tier, stage, flavour, case, bucket, overlays, scratch, budget_s):
+    """Greedy one-at-a-time reduction of a crashing case; every candidate is replayed in its own process."""
+    t_end = time.time() + budget_s
+    n_try = 0
+    improved = True
+    while improved and time.time() < t_end:
+        improved = False
+        cands = _candidates(case)
+        # try batches of NPROC candidates in parallel, keep the first that still crashes the same way
+        for i in range(0, len(cands), NPROC):
+            if time.time() > t_end:
+                break
+            batch = cands[i:i + NPROC]
+            tasks = []
+            for j, cand in enumerate(batch):
+                try:
+                    c2 = _apply(case, cand)
+                except Exception:
+                    continue
+                f = os.path.join(scratch, "shrink-%d-%d.json" % (n_try, j))
+                with open(f, "w") as fh:
+                    json.dump({"property": prop, "stage": stage, "case": c2}, fh)
+                t = Task("replay", ["--replay", f], flavour, c2)
+                tasks.append(t)
+            n_try += 1
+            run_tasks(tasks, prop, tier, overlays, scratch, 120)
+            hit = None
+            for t in tasks:
+                if t.result is None or t.rc not in (0, 2):
+                    b, _ = crash_bucket(t)
+                    if b == bucket:
+                        hit = t.tag
+                        break
+            if hit is not None:
+                case = hit
+                improved = True
+                break
+    return case
+
+
 def load_known(prop):
     path = os.path.join(ROOT, "known_findings.json")
     if not os.path.exists(path):
@@ -304,6 +379,12 @@ def _main(prop, tier, seed, replay_file, scratch, t0):
             if b in active:
                 agg["known_hits"][b] = agg["known_hits"].get(b, 0) + 1
             else:
+                if case is not None and isinstance(case, dict) and not any(v[1]["bucket"] == b for v in violations):
+                    try:
+                        case = shrink_crash(prop, tier, sname, flav.get(sname, "plain"), case, b, overlays, scratch,
+                                            60 if tier == "quick" else 300)
+                    except Exception as e:       # shrinking is best effort
+                        log("shrinking failed:", e)
                 violations.append((sname, {"bucket": b, "message": err, "case": case}, {"shard": shard}))
         r = t.result
         if not r:
